@@ -140,4 +140,18 @@ theorem C18_stack_capacity_exact (cfg : Cfg) (s : MemStack) (size k : Nat) (hk :
       exfalso
       omega
 
+/-- the hypotheses are satisfiable (a test, labelled as a test): `iteration_allocator<3>` over a 101-byte block — a size not
+divisible by `N` — satisfies the invariant; the three fresh regions report 33 + 34 + 34 = 101 bytes -/
+def demoIter : Iter := { n := 3, src := .fixed 101, block := ⟨4096, 101⟩, tops := [4096, 4129, 4163], cur := 0 }
+
+example : demoIter.Inv := by
+  refine ⟨⟨by decide, by decide, by decide, by decide, by decide⟩, by decide, by decide, ?_⟩
+  intro i hi
+  have : i = 0 ∨ i = 1 ∨ i = 2 := by
+    have : i < 3 := hi
+    omega
+  rcases this with rfl | rfl | rfl <;> decide
+
+example : demoIter.capacityLeft 0 + demoIter.capacityLeft 1 + demoIter.capacityLeft 2 = demoIter.block.size := by decide
+
 end MemVerif.Props.C18Counters
